@@ -189,6 +189,9 @@ type Env struct {
 	// LenientAdd is a defect model, never the reference: ADD stores any operand under a missing
 	// attribute and adds a scalar of the element type to a set.
 	LenientAdd bool
+	// AliasAsPath is a defect model, never the reference: a name placeholder whose name contains
+	// dots and names no attribute of the item is read as a document path (d.e = member e of d).
+	AliasAsPath bool
 }
 
 // resolution status
@@ -209,6 +212,15 @@ func (e Env) Resolve(p Path) (val.V, int) {
 		return val.V{}, rInvalid
 	}
 	cur, ok := e.Item[name]
+	if !ok && e.AliasAsPath && strings.HasPrefix(p[0].Name, "#") && strings.Contains(name, ".") {
+		var q Path
+		for _, seg := range strings.Split(name, ".") {
+			q = append(q, PElem{Name: seg})
+		}
+		e2 := e
+		e2.AliasAsPath = false
+		return e2.Resolve(append(q, p[1:]...))
+	}
 	if !ok {
 		// still validate remaining aliases
 		for _, el := range p[1:] {
